@@ -40,6 +40,29 @@ theorem C10_pool (ops : List ROp) (pooled : BW) (u : Under) :
     render false ops pooled u = render false ops { cap := pooled.cap } u :=
   Proofs.Buf.render_pool_independent ops pooled u
 
+/-! The three theorems above quantify over EVERY behaviour of the caller's writer the model has, also over writers that
+    break the io.Writer contract (`silent`: from the limit on they take less than they were given and return no
+    error). `runtime.Buffer` puts a checking writer in front of them (repair `0f5e0ab`); without it bufio's loop for a
+    large write into an empty buffer does not move. -/
+
+theorem C10_unchecked_silent_stuck (b : BW) (p : Bytes) (k : Nat) (hl : b.u.limit = some k) (hk : k ≤ b.u.accepted.length)
+    (hz : b.u.zeroWrite = true) (hs : b.u.silent = true) (he : b.err = false) (hp : p ≠ []) :
+    b.largeStepUnchecked p = (b, p) :=
+  Proofs.Buf.largeStepUnchecked_stuck b p k hl hk hz hs he hp
+
+theorem C10_silent_zero_reported (b : BW) (p : Bytes) (k : Nat) (hl : b.u.limit = some k) (hk : k ≤ b.u.accepted.length)
+    (hz : b.u.zeroWrite = true) (hs : b.u.silent = true) (he : b.err = false) (hb : b.buf = []) (hp : b.cap < p.length) :
+    (b.write p).err = true ∧ (b.write p).u.accepted = b.u.accepted :=
+  Proofs.Buf.write_silent_zero_reported b p k hl hk hz hs he hb hp
+
+/-- Non-vacuity: a silent zero-writer that has accepted its 2 bytes; capacity 4; a 7-byte document in one write is
+    reported as the writer's failure with nothing more accepted, a silent SHORT writer (one that takes what fits) too. -/
+example :
+    (render false [.write [1, 2, 3, 4, 5, 6, 7]] { cap := 4 } { accepted := [8, 9], limit := some 2, zeroWrite := true, silent := true }).2 = .writer ∧
+    (render false [.write [1, 2, 3, 4, 5, 6, 7]] { cap := 4 } { accepted := [8, 9], limit := some 2, zeroWrite := true, silent := true }).1.u.accepted = [8, 9] ∧
+    (render false [.write [1, 2, 3], .write [4, 5, 6, 7]] { cap := 4 } { limit := some 5, silent := true }).2 = .writer ∧
+    (render false [.write [1, 2, 3], .write [4, 5, 6, 7]] { cap := 4 } { limit := some 5, silent := true }).1.u.accepted = [1, 2, 3, 4, 5] := by decide
+
 /-- Non-vacuity: capacity 4, a 7-byte document in three writes, writer failing at offset 5 (short write): the writer
     holds the 5-byte prefix and the error is the writer's; the same buffer then renders completely on a healthy writer. -/
 example :
